@@ -56,44 +56,64 @@ var vCodes = []conduiterr.Code{
 	conduiterr.CodeNotFound,
 	conduiterr.CodeExternalConnectorUnreachable,
 	conduiterr.CodeExternalConnectorVersionMismatch,
+	conduiterr.CodeUnknown,
 }
 
 type vBuilder struct {
-	budget   int
-	doubleW  bool
-	withGRPC bool
+	budget      int
+	doubleW     bool
+	withGRPC    bool
+	joinsOnly   bool
+	plainLeaves bool
+}
+
+// leaf draws a leaf error.
+func (b *vBuilder) leaf() (error, vShadow) {
+	nLeaf := 6
+	if b.plainLeaves {
+		nLeaf = 2
+	}
+	switch verifConcrete(verifChoice("leaf", nLeaf)) {
+	case 0:
+		return cerrors.New("plain"), vShadow{}
+	case 1:
+		return vSentinel, vShadow{sentinel: true}
+	case 2:
+		c := vCodes[verifConcrete(verifChoice("code", len(vCodes)))]
+		return conduiterr.New(c, "coded"), vShadow{hasCode: true, code: c}
+	case 3:
+		return context.Canceled, vShadow{canceled: true}
+	case 4:
+		return syscall.ECONNREFUSED, vShadow{envSent: true}
+	default:
+		// the boundary fallback: reason internal.unknown, category kept
+		e := conduiterr.WithUnknownReason(cerrors.New("unclassified"), codes.NotFound)
+		return e, vShadow{hasCode: true, code: e.Code}
+	}
+
 }
 
 // build constructs an error by a symbolic choice of constructors, consuming
 // one unit of budget per node.
 func (b *vBuilder) build() (error, vShadow) {
 	b.budget--
-	leafOnly := b.budget <= 0
-	nLeaf := 5
-	if leafOnly {
-		switch verifConcrete(verifChoice("leaf", nLeaf)) {
-		case 0:
-			return cerrors.New("plain"), vShadow{}
-		case 1:
-			return vSentinel, vShadow{sentinel: true}
-		case 2:
-			c := vCodes[verifConcrete(verifChoice("code", len(vCodes)))]
-			return conduiterr.New(c, "coded"), vShadow{hasCode: true, code: c}
-		case 3:
-			return context.Canceled, vShadow{canceled: true}
-		default:
-			return syscall.ECONNREFUSED, vShadow{envSent: true}
-		}
+	if b.budget <= 0 {
+		return b.leaf()
 	}
 	nOps := 7
 	if b.doubleW {
 		nOps = 8
 	}
-	switch verifConcrete(verifChoice("op", nOps)) {
-	case 0: // leaf after all
-		b.budget = 0
-		b.budget++
-		return b.build()
+	op := 0
+	if b.joinsOnly {
+		// only the tree-shaping constructors: leaf, %w wrap, join, fatal mark
+		op = []int{0, 1, 3, 4}[verifConcrete(verifChoice("op", 4))]
+	} else {
+		op = verifConcrete(verifChoice("op", nOps))
+	}
+	switch op {
+	case 0: // a leaf here; the remaining budget stays available to the siblings
+		return b.leaf()
 	case 1:
 		e, s := b.build()
 		return cerrors.Errorf("wrapped: %w", e), s
@@ -162,7 +182,8 @@ func refExit(s vShadow) int {
 }
 
 func VerifC20Trees() {
-	b := &vBuilder{budget: verifParam("nodes", 3), doubleW: verifParam("doubleW", 0) == 1}
+	b := &vBuilder{budget: verifParam("nodes", 3), doubleW: verifParam("doubleW", 0) == 1,
+		joinsOnly: verifParam("joinsOnly", 0) == 1, plainLeaves: verifParam("joinsOnly", 0) == 1}
 	e, s := b.build()
 	verifAssert(cerrors.IsFatalError(e) == s.fatal, "c20-fatal-mark-lost-or-invented")
 	ce, ok := conduiterr.Get(e)
